@@ -407,6 +407,20 @@ fn cases(tier: Tier) -> Vec<Case> {
     {
         use crate::props::{c02::Cause, c16::{Node, Reg, S}};
         let root = Node { role: 0, parent: None, reg: Reg::Add, outside: false, outside_stops: false };
+        // two children that die on their own ahead of a live sibling, then two broadcasts: the
+        // survivor stays the parent's child
+        {
+            let dying = |role| Node { role, parent: Some(0), reg: Reg::Ty(1), outside: true, outside_stops: true };
+            let tree = vec![root, dying(1), dying(2), Node { role: 3, parent: Some(0), reg: Reg::Ty(1), outside: false, outside_stops: false }];
+            for cause in [Cause::StopClient, Cause::LastDrop] {
+                v.push(Case {
+                    desc: format!("lifetime [held by the parent's child list only, two siblings died before it] cause={cause:?}"),
+                    exec: ExecCfg { horizon: 30, ..ExecCfg::default() },
+                    bound: Some(if tier == Tier::Quick { 4 } else { 7 }),
+                    scene: Box::new(S { nodes: tree.clone(), cause, bcasts: vec![(1, 601), (1, 603)], mailbox: Mailbox::U, pid: "C05", restart_root: false, slow_stop: None, child_timers: false, late_registration: false }),
+                });
+            }
+        }
         for reg in [Reg::Add, Reg::Ty(1)] {
             let tree = vec![root, Node { role: 1, parent: Some(0), reg, outside: false, outside_stops: false }];
             for cause in [Cause::StopClient, Cause::LastDrop] {
@@ -415,7 +429,7 @@ fn cases(tier: Tier) -> Vec<Case> {
                         desc: format!("lifetime [held by the parent's child list only, parent restarted first] reg={reg:?} cause={cause:?} mailbox={}", mb.name()),
                         exec: ExecCfg { horizon: 30, ..ExecCfg::default() },
                         bound: None,
-                        scene: Box::new(S { nodes: tree.clone(), cause, bcasts: vec![(1, 601)], mailbox: mb, pid: "C05", restart_root: true, slow_stop: None, child_timers: false }),
+                        scene: Box::new(S { nodes: tree.clone(), cause, bcasts: vec![(1, 601)], mailbox: mb, pid: "C05", restart_root: true, slow_stop: None, child_timers: false, late_registration: false }),
                     });
                     // ... and through a burst of broadcasts from the parent (more than a small
                     // bounded mailbox of the child has room for), without any restart
@@ -423,7 +437,7 @@ fn cases(tier: Tier) -> Vec<Case> {
                         desc: format!("lifetime [held by the parent's child list only, burst of broadcasts] reg={reg:?} cause={cause:?} mailbox={}", mb.name()),
                         exec: ExecCfg { horizon: 30, ..ExecCfg::default() },
                         bound: None,
-                        scene: Box::new(S { nodes: tree.clone(), cause, bcasts: vec![(1, 601), (1, 603), (1, 604), (1, 605)], mailbox: mb, pid: "C05", restart_root: false, slow_stop: None, child_timers: false }),
+                        scene: Box::new(S { nodes: tree.clone(), cause, bcasts: vec![(1, 601), (1, 603), (1, 604), (1, 605)], mailbox: mb, pid: "C05", restart_root: false, slow_stop: None, child_timers: false, late_registration: false }),
                     });
                 }
             }
